@@ -13,7 +13,9 @@ use crate::storage::lua_engine::{get_lua_engine, LuaCommandContext};
 
 /// Process KEYS and ARGV from RESP frames
 fn process_keys_and_args(parts: &[RespFrame], start_idx: usize, num_keys: usize) -> std::result::Result<(Vec<Vec<u8>>, Vec<Vec<u8>>), String> {
-    if parts.len() < start_idx + num_keys {
+    // numkeys comes from the client: compare without adding, so that a huge value can neither
+    // wrap around nor be used as a capacity
+    if parts.len().saturating_sub(start_idx) < num_keys {
         return Err("wrong number of arguments".to_string());
     }
     
